@@ -41,3 +41,8 @@ Print Assumptions C14_ends_with_is_suffix.
 Theorem C14_holds_model : forall c, holds c (model c) = true.
 Proof. exact holds_model. Qed.
 Print Assumptions C14_holds_model.
+
+(* s.substring(0, k) & s.substring(k) = s for every string and every k >= 0 (beyond the end and for the empty string too) *)
+Theorem C14_split_join_identity : forall s k, 0 <= k -> opt_str (substring s 0 (Some k)) ++ opt_str (substring s k None) = s.
+Proof. exact split_join_identity. Qed.
+Print Assumptions C14_split_join_identity.
